@@ -1,16 +1,55 @@
 //! Glue for the cargo-fuzz targets: structured cases from fuzzer bytes, failure reporting.
+//!
+//! proptest's pass-through RNG cannot drive the large strategies of this harness (every lazily built union alternative
+//! halves the remaining byte budget, and rand's uniform sampler never terminates on the zeros that follow), so the targets
+//! decode their input by hand: a few leading bytes choose the *structured* part of the case (through the same proptest
+//! strategies, seeded), the remaining bytes are used verbatim as the byte-level part (body, URI, operation stream).
 use proptest::strategy::{Strategy, ValueTree};
 use proptest::test_runner::{RngAlgorithm, TestRng, TestRunner};
 use serde::Serialize;
 
-/// Decode the fuzzer's bytes into a structured case by feeding them to the strategy as its random stream.
-pub fn from_bytes<S: Strategy>(strategy: &S, data: &[u8]) -> Option<S::Value> {
-    if data.is_empty() {
-        return None;
+/// Generate the structured part of a case from a short seed taken from the fuzzer's bytes.
+pub fn from_seed<S: Strategy>(strategy: &S, seed: &[u8]) -> Option<S::Value> {
+    let mut bytes = [0u8; 32];
+    let mut x = crate::engine::hash64(seed);
+    for c in bytes.chunks_mut(8) {
+        x = x.wrapping_mul(0x9E3779B97F4A7C15).wrapping_add(0x632BE59BD9B4E019);
+        c.copy_from_slice(&(x ^ (x >> 29)).to_le_bytes());
     }
-    let rng = TestRng::from_seed(RngAlgorithm::PassThrough, data);
+    let rng = TestRng::from_seed(RngAlgorithm::ChaCha, &bytes);
     let mut runner = TestRunner::new_with_rng(crate::engine::runner_config(1), rng);
     strategy.new_tree(&mut runner).ok().map(|t| t.current())
+}
+
+/// Minimal byte reader for hand-decoded cases.
+pub struct Bytes<'a> {
+    pub data: &'a [u8],
+    pub pos: usize,
+}
+
+impl<'a> Bytes<'a> {
+    pub fn new(data: &'a [u8]) -> Self {
+        Bytes { data, pos: 0 }
+    }
+    pub fn u8(&mut self) -> u8 {
+        let b = self.data.get(self.pos).copied().unwrap_or(0);
+        self.pos += 1;
+        b
+    }
+    pub fn u16(&mut self) -> u16 {
+        u16::from_le_bytes([self.u8(), self.u8()])
+    }
+    pub fn done(&self) -> bool {
+        self.pos >= self.data.len()
+    }
+    pub fn pick<'b, T>(&mut self, pool: &'b [T]) -> &'b T {
+        &pool[self.u8() as usize % pool.len()]
+    }
+    pub fn rest(&mut self) -> &'a [u8] {
+        let r = &self.data[self.pos.min(self.data.len())..];
+        self.pos = self.data.len();
+        r
+    }
 }
 
 /// Write the replay file and abort (libFuzzer then saves the input as a crash artifact).
